@@ -65,7 +65,7 @@ theorem unbroken_prefix {a b : List Tok} (h : Unbroken (a ++ b)) : Unbroken a :=
 /-- a value cut short is never read successfully: if only a proper prefix `π` of a node's lexemes is there
 (and then the input ends), the value deserializer called on what `read` delivers from `π` does not return `ok`. -/
 theorem trunc_value (p : Path) (c : Cfg) (v : BNode) (ty : Ty) (hpl : plainN v = true) (hfit : fitsN c v ty = true)
-    (hu : noU16 ty = true) (π ρ : List Tok) (hsplit : π ++ ρ = tokensNode v) (hρ : ρ ≠ [])
+    (π ρ : List Tok) (hsplit : π ++ ρ = tokensNode v) (hρ : ρ ≠ [])
     (t : Tok) (tl : List Tok) (hf : fetchRead p π = .ok (t, tl)) (f : Nat) (x : String) (r : List Tok) :
     deTok p c f ty t tl ≠ .ok (x, r) := by
   intro hok
@@ -95,7 +95,7 @@ theorem trunc_value (p : Path) (c : Cfg) (v : BNode) (ty : Ty) (hpl : plainN v =
     have hfull := fetchRead_node p v hpl []
     rw [List.append_nil, ← hsplit, g1] at hfull
     have hv := lift_ty_seq p c v []
-      (fun core f' hno hu' hfc hbc => sv_node c v p [] core f' hno hu' hpl hfc hbc) ty F hu hfit (by omega)
+      (fun core f' hno hfc hbc => sv_node c v p [] core f' hno hpl hfc hbc) ty F hfit (by omega)
     rw [← Except.ok.inj hfull] at hv
     simp only at hv
     rw [k1] at hv
@@ -242,7 +242,7 @@ theorem mapStepK_ok {α : Type} (c : Cfg) (k : BLeaf) (v : BNode) (vt : Ty) (acc
 
 theorem map_field_step (p : Path) (c : Cfg) (root : Bool) (gh : Nat) (k : BLeaf) (v : BNode) (tail : List Tok) (vt : Ty)
     (acc : List String) (g : Nat) (hk : plainTok k.tok = true) (hv : plainN v = true) (hfit : fitsN c v vt = true)
-    (hu : noU16 vt = true) (hb : gh + 2 + (tokensNode v).length + tySize vt ≤ g) :
+    (hb : gh + 2 + (tokensNode v).length + tySize vt ≤ g) :
     deMap p c (g + 1) vt root (ghostToks gh ++ k.tok :: .equal :: (tokensNode v ++ tail)) acc =
       mapStepK c k v vt acc (fun a => deMap p c g vt root tail a) := by
   have hkey := nextKey_field p root k hk (.equal :: (tokensNode v ++ tail)) gh (g + 1) (by omega)
@@ -255,7 +255,7 @@ theorem map_field_step (p : Path) (c : Cfg) (root : Bool) (gh : Nat) (k : BLeaf)
   | ok ks =>
     have hnv := nextValue_node p v hv tail
     have hvv := lift_ty_seq p c v tail
-      (fun core f' hno hu' hfc hbc => sv_node c v p _ core f' hno hu' hv hfc hbc) vt (g' + 1) hu hfit (by omega)
+      (fun core f' hno hfc hbc => sv_node c v p _ core f' hno hv hfc hbc) vt (g' + 1) hfit (by omega)
     generalize valueTok p v tail = vtk at hnv hvv
     obtain ⟨t, tl⟩ := vtk
     simp only at hvv
@@ -317,7 +317,6 @@ theorem structStepK_ok {α : Type} (S : Sem) (decl : Fields) (slots : List (Opti
 
 theorem struct_field_step (p : Path) (c : Cfg) (root : Bool) (gh : Nat) (k : BLeaf) (v : BNode) (tail : List Tok)
     (decl : Fields) (slots : List (Option String)) (g : Nat) (hk : plainTok k.tok = true) (hv : plainN v = true)
-    (hu : noU16F decl = true)
     (hfit1 : ∀ i name tk fty, whichOf (binSem c) decl k = .ok (some i) → decl.get? i = some (name, tk, fty) →
         fitsN c v fty = true)
     (hb : gh + 2 + (tokensNode v).length + tySize.fieldsSize decl ≤ g) :
@@ -327,9 +326,9 @@ theorem struct_field_step (p : Path) (c : Cfg) (root : Bool) (gh : Nat) (k : BLe
   have hn := normTok_plain p .any k.tok (.equal :: (tokensNode v ++ tail)) hk
   rw [deStruct_some p c g decl false root _ _ _ _ _ slots hkey hn, seqFieldKey_which c decl k hk]
   have hnv := nextValue_node p v hv tail
-  have hvv := fun ty (hu' : noU16 ty = true) (hf : fitsN c v ty = true) (hb' : (tokensNode v).length + tySize ty ≤ g) =>
+  have hvv := fun ty (hf : fitsN c v ty = true) (hb' : (tokensNode v).length + tySize ty ≤ g) =>
     lift_ty_seq p c v tail
-      (fun core f' hno hu'' hfc hbc => sv_node c v p _ core f' hno hu'' hv hfc hbc) ty g hu' hf hb'
+      (fun core f' hno hfc hbc => sv_node c v p _ core f' hno hv hfc hbc) ty g hf hb'
   generalize valueTok p v tail = vtk at hnv hvv
   obtain ⟨t, tl⟩ := vtk
   simp only at hvv
@@ -339,7 +338,7 @@ theorem struct_field_step (p : Path) (c : Cfg) (root : Bool) (gh : Nat) (k : BLe
     cases w with
     | none =>
       simp only [seqStructStep, structStepK, hnv]
-      rw [hvv .ign (by simp [noU16]) (by cases v <;> simp [fitsN, stripOpt]) (by simp [tySize]; omega)]
+      rw [hvv .ign (by cases v <;> simp [fitsN, stripOpt]) (by simp [tySize]; omega)]
       have : nodeVia (valCoreG (binSem c) v) .ign = .ok "ign" := by
         cases v <;> simp [nodeVia, stripOpt, valCoreG, wrapRes, wrapSome]
       simp only [this, Except.map]
@@ -359,7 +358,7 @@ theorem struct_field_step (p : Path) (c : Cfg) (root : Bool) (gh : Nat) (k : BLe
             have hsz := (get?_size decl i name tk fty hfb).1
             have hfv := hfit1 i name tk fty hw hfb
             simp only [hnv]
-            rw [hvv fty (noU16_get decl i name tk fty hu hfb) hfv (by omega)]
+            rw [hvv fty hfv (by omega)]
             cases hx : nodeVia (valCoreG (binSem c) v) fty with
             | error e => rfl
             | ok x => rfl
@@ -377,7 +376,7 @@ theorem nextValue_eq (p : Path) (π : List Tok) : nextValue p (.equal :: π) = f
   simp only [nextValue, fetchRead, this]
 
 theorem map_cut_field (p : Path) (c : Cfg) (vt : Ty) (gh : Nat) (k : BLeaf) (v : BNode) (l : List Tok)
-    (hk : plainTok k.tok = true) (hv : plainN v = true) (hfit : fitsN c v vt = true) (hu : noU16 vt = true)
+    (hk : plainTok k.tok = true) (hv : plainN v = true) (hfit : fitsN c v vt = true)
     (hc : FieldCut gh k v l) (f : Nat) (acc items : List String) (r : List Tok)
     (h : deMap p c f vt true l acc = .ok (items, r)) : ∃ j, l = ghostToks j ∧ items = acc := by
   have h' := (fuel_mono p c f).2.2.1 (f + l.length + gh + 3) (by omega) vt true l acc _ h
@@ -422,10 +421,10 @@ theorem map_cut_field (p : Path) (c : Cfg) (vt : Ty) (gh : Nat) (k : BLeaf) (v :
         | error e => simp [hdt] at h'
         | ok z =>
           obtain ⟨x, r'⟩ := z
-          exact trunc_value p c v vt hv hfit hu π ρ hsplit hρ t tl hfr _ x r' hdt
+          exact trunc_value p c v vt hv hfit π ρ hsplit hρ t tl hfr _ x r' hdt
 
 theorem struct_cut_field (p : Path) (c : Cfg) (decl : Fields) (gh : Nat) (k : BLeaf) (v : BNode) (l : List Tok)
-    (hk : plainTok k.tok = true) (hv : plainN v = true) (hu : noU16F decl = true)
+    (hk : plainTok k.tok = true) (hv : plainN v = true)
     (hfit1 : ∀ i name tk fty, whichOf (binSem c) decl k = .ok (some i) → decl.get? i = some (name, tk, fty) →
         fitsN c v fty = true)
     (hc : FieldCut gh k v l) (f : Nat) (slots : List (Option String)) (x : String) (r : List Tok)
@@ -436,11 +435,11 @@ theorem struct_cut_field (p : Path) (c : Cfg) (decl : Fields) (gh : Nat) (k : BL
   have hbad : ∀ (π ρ : List Tok), π ++ ρ = tokensNode v → π ≠ [] → ρ ≠ [] →
       seqStructStep p c G decl false true slots (.equal :: π) (whichOf (binSem c) decl k) ≠ .ok (x, r) := by
     intro π ρ hsplit hπ hρ hs
-    have hT : ∀ ty, noU16 ty = true → fitsN c v ty = true → ∀ t tl, nextValue p (.equal :: π) = .ok (t, tl) →
+    have hT : ∀ ty, fitsN c v ty = true → ∀ t tl, nextValue p (.equal :: π) = .ok (t, tl) →
         ∀ x' r', deTok p c G ty t tl ≠ .ok (x', r') := by
-      intro ty hu' hf' t tl hnv x' r' hdt
+      intro ty hf' t tl hnv x' r' hdt
       rw [nextValue_eq p π] at hnv
-      exact trunc_value p c v ty hv hf' hu' π ρ hsplit hρ t tl hnv _ x' r' hdt
+      exact trunc_value p c v ty hv hf' π ρ hsplit hρ t tl hnv _ x' r' hdt
     cases hw : whichOf (binSem c) decl k with
     | error e => simp [hw, seqStructStep] at hs
     | ok w =>
@@ -453,7 +452,7 @@ theorem struct_cut_field (p : Path) (c : Cfg) (decl : Fields) (gh : Nat) (k : BL
           obtain ⟨t, tl⟩ := q
           cases hdt : deTok p c G .ign t tl with
           | error e => simp [hnv, hdt] at hs
-          | ok z => exact hT .ign (by simp [noU16]) (by cases v <;> simp [fitsN, stripOpt]) t tl hnv z.1 z.2 hdt
+          | ok z => exact hT .ign (by cases v <;> simp [fitsN, stripOpt]) t tl hnv z.1 z.2 hdt
       | some i =>
         simp only [hw, seqStructStep] at hs
         cases hsa : slots[i]? with
@@ -473,7 +472,7 @@ theorem struct_cut_field (p : Path) (c : Cfg) (decl : Fields) (gh : Nat) (k : BL
                 obtain ⟨t, tl⟩ := q
                 cases hdt : deTok p c G fty t tl with
                 | error e => simp [hnv, hdt] at hs
-                | ok z => exact hT fty (noU16_get decl i name tk fty hu hfb) (hfit1 i name tk fty hw hfb) t tl hnv z.1 z.2 hdt
+                | ok z => exact hT fty (hfit1 i name tk fty hw hfb) t tl hnv z.1 z.2 hdt
   have hshort : ∀ tl, nextValue p tl = .error .other →
       seqStructStep p c G decl false true slots tl (whichOf (binSem c) decl k) ≠ .ok (x, r) := by
     intro tl hnv hs
@@ -540,7 +539,7 @@ theorem take_field (gh : Nat) (k : BLeaf) (v : BNode) (tail : List Tok) (n : Nat
   rw [e, List.take_append, hl, List.take_of_length_le (by omega)]
   simp
 
-theorem map_cut (p : Path) (c : Cfg) (vt : Ty) (hu : noU16 vt = true) :
+theorem map_cut (p : Path) (c : Cfg) (vt : Ty) :
     ∀ (m : Nat) (d : BFields), d.len = m → plainF d = true → fitsMapF c d vt = true → ∀ (n f : Nat) acc items r,
       deMap p c f vt true ((tokensFields d).take n) acc = .ok (items, r) →
       ∃ k j, (tokensFields d).take n = tokensFields (firstK k d) ++ ghostToks j ∧
@@ -567,21 +566,21 @@ theorem map_cut (p : Path) (c : Cfg) (vt : Ty) (hu : noU16 vt = true) :
       simp only [fitsMapF, Bool.and_eq_true] at hfit
       rw [field_toks] at h ⊢
       by_cases hn : n < 2 * gh + 2 + (tokensNode v).length
-      · obtain ⟨j, e1, e2⟩ := map_cut_field p c vt gh k v _ hpl.1.1 hpl.1.2 hfit.1 hu
+      · obtain ⟨j, e1, e2⟩ := map_cut_field p c vt gh k v _ hpl.1.1 hpl.1.2 hfit.1
           (field_cut_cases k v (tokensFields rest) gh n hn) f acc items r h
         exact ⟨0, j, by simp [firstK, tokensFields, e1], by simp [firstK, valMapG, e2]⟩
       · rw [take_field gh k v _ n (by omega)] at h ⊢
         generalize n - (2 * gh + 2 + (tokensNode v).length) = n' at h ⊢
         have h' := (fuel_mono p c f).2.2.1 (f + gh + 2 + (tokensNode v).length + tySize vt + 1) (by omega) vt true _ acc _ h
         rw [show f + gh + 2 + (tokensNode v).length + tySize vt + 1 = (f + gh + 2 + (tokensNode v).length + tySize vt) + 1 from rfl,
-          map_field_step p c true gh k v _ vt acc _ hpl.1.1 hpl.1.2 hfit.1 hu (by omega)] at h'
+          map_field_step p c true gh k v _ vt acc _ hpl.1.1 hpl.1.2 hfit.1 (by omega)] at h'
         obtain ⟨a, ha, hK⟩ := mapStepK_ok c k v vt acc _ _ h'
         obtain ⟨k', j, e1, e2⟩ := ih rest hrm hpl.2 hfit.2 n' _ a items r ha
         refine ⟨k' + 1, j, ?_, ?_⟩
         · simp only [firstK, field_toks, e1]; simp
         · simp only [firstK, valMapG_cons, hK]; exact e2
 
-theorem struct_cut (p : Path) (c : Cfg) (decl : Fields) (hu : noU16F decl = true) :
+theorem struct_cut (p : Path) (c : Cfg) (decl : Fields) :
     ∀ (m : Nat) (d : BFields), d.len = m → plainF d = true → fitsStructF c d decl = true → ∀ (n f : Nat) slots x r,
       deStruct p c f decl false true ((tokensFields d).take n) slots = .ok (x, r) →
       ∃ k j, (tokensFields d).take n = tokensFields (firstK k d) ++ ghostToks j ∧
@@ -620,7 +619,7 @@ theorem struct_cut (p : Path) (c : Cfg) (decl : Fields) (hu : noU16F decl = true
         simpa [h2] using this
       rw [field_toks] at h ⊢
       by_cases hn : n < 2 * gh + 2 + (tokensNode v).length
-      · obtain ⟨j, e1, e2⟩ := struct_cut_field p c decl gh k v _ hpl.1.1 hpl.1.2 hu hfit1
+      · obtain ⟨j, e1, e2⟩ := struct_cut_field p c decl gh k v _ hpl.1.1 hpl.1.2 hfit1
           (field_cut_cases k v (tokensFields rest) gh n hn) f slots x r h
         exact ⟨0, j, by simp [firstK, tokensFields, e1], by simp [firstK, valStructG, e2]⟩
       · rw [take_field gh k v _ n (by omega)] at h ⊢
@@ -629,7 +628,7 @@ theorem struct_cut (p : Path) (c : Cfg) (decl : Fields) (hu : noU16F decl = true
           decl false true _ slots _ h
         rw [show f + gh + 2 + (tokensNode v).length + tySize.fieldsSize decl + 1 =
             (f + gh + 2 + (tokensNode v).length + tySize.fieldsSize decl) + 1 from rfl,
-          struct_field_step p c true gh k v _ decl slots _ hpl.1.1 hpl.1.2 hu hfit1 (by omega)] at h'
+          struct_field_step p c true gh k v _ decl slots _ hpl.1.1 hpl.1.2 hfit1 (by omega)] at h'
         obtain ⟨sl, ha, hK⟩ := structStepK_ok _ decl slots v _ _ _ h'
         obtain ⟨k', j, e1, e2⟩ := ih rest hrm hpl.2 hfit.2 n' _ sl x r ha
         refine ⟨k' + 1, j, ?_, ?_⟩
@@ -637,14 +636,14 @@ theorem struct_cut (p : Path) (c : Cfg) (decl : Fields) (hu : noU16F decl = true
         · simp only [firstK, valStructG_cons_false, structStepSpec_K, hK]; exact e2
 
 /-- (C19, binary deserializers, NESTED documents, both sequential paths) the lexemes of a document
-(leaves not the reserved lexeme, `plainF`; root request a map or struct that fits it, `fitsRoot`; no
-`u16` target) cut after ANY `n` lexemes.  If the deserializer still answers `ok v`, then the cut lies
+(leaves not the reserved lexeme, `plainF`; root request a map or struct that fits it, `fitsRoot`)
+cut after ANY `n` lexemes.  If the deserializer still answers `ok v`, then the cut lies
 between two top-level fields - after `k` complete fields and `j` complete ghost objects - and `v` is
 the reference value of the document made of those `k` fields.  So a cut after a key, after its `=`,
 anywhere inside a nested value or inside a ghost object is an error on both paths, and an accepted
 cut never yields anything but the value of the fields that are wholly there. -/
 theorem C19_bin_de_cut (p : Path) (c : Cfg) (ty : RootTy) (d : BDoc) (hpl : plainF d = true)
-    (hfit : fitsRoot c ty d = true) (hu : noU16Root ty = true) (n : Nat) (v : String)
+    (hfit : fitsRoot c ty d = true) (n : Nat) (v : String)
     (h : deSeqRoot p c ty ((tokensOf d).take n) = .ok v) :
     ∃ k j, (tokensOf d).take n = tokensOf (firstK k d) ++ ghostToks j ∧ valueOfBin c ty (firstK k d) = .ok v := by
   unfold deSeqRoot tokensOf at h
@@ -655,7 +654,6 @@ theorem C19_bin_de_cut (p : Path) (c : Cfg) (ty : RootTy) (d : BDoc) (hpl : plai
     cases t with
     | map vt =>
       simp only [fitsRoot] at hfit
-      simp only [noU16Root, noU16] at hu
       dsimp only at h
       generalize 2 * ((tokensFields d).take n).length + rootSize (.plain (.map vt)) + 8 = F at h
       cases hx : deMap p c F vt true ((tokensFields d).take n) [] with
@@ -663,13 +661,12 @@ theorem C19_bin_de_cut (p : Path) (c : Cfg) (ty : RootTy) (d : BDoc) (hpl : plai
       | ok y =>
         obtain ⟨items, r⟩ := y
         rw [hx] at h
-        obtain ⟨k, j, e1, e2⟩ := map_cut p c vt hu d.len d rfl hpl hfit n _ [] items r hx
+        obtain ⟨k, j, e1, e2⟩ := map_cut p c vt d.len d rfl hpl hfit n _ [] items r hx
         refine ⟨k, j, e1, ?_⟩
         simp only [valueOfBin, valueOfG, e2]
         exact h
     | struct decl =>
       simp only [fitsRoot] at hfit
-      simp only [noU16Root, noU16] at hu
       dsimp only at h
       generalize 2 * ((tokensFields d).take n).length + rootSize (.plain (.struct decl)) + 8 = F at h
       cases hx : deStruct p c F decl false true ((tokensFields d).take n) (slotsInit decl) with
@@ -677,7 +674,7 @@ theorem C19_bin_de_cut (p : Path) (c : Cfg) (ty : RootTy) (d : BDoc) (hpl : plai
       | ok y =>
         obtain ⟨x, r⟩ := y
         rw [hx] at h
-        obtain ⟨k, j, e1, e2⟩ := struct_cut p c decl hu d.len d rfl hpl hfit n _ _ x r hx
+        obtain ⟨k, j, e1, e2⟩ := struct_cut p c decl d.len d rfl hpl hfit n _ _ x r hx
         refine ⟨k, j, e1, ?_⟩
         simp only [valueOfBin, valueOfG, e2]
         exact h
@@ -766,7 +763,7 @@ theorem struct_fault_head (p : Path) (c : Cfg) (decl : Fields) (bt : Bool) (m : 
       simp [hk, normTok, this] at h
 
 /-- a run of complete fields followed by anything: an `ok` answer is an `ok` answer of the loop on what follows. -/
-theorem map_cont (p : Path) (c : Cfg) (vt : Ty) (hu : noU16 vt = true) (tail : List Tok) :
+theorem map_cont (p : Path) (c : Cfg) (vt : Ty) (tail : List Tok) :
     ∀ (m : Nat) (d : BFields), d.len = m → plainF d = true → fitsMapF c d vt = true → ∀ (f : Nat) acc y,
       deMap p c f vt true (tokensFields d ++ tail) acc = .ok y → ∃ f' a, deMap p c f' vt true tail a = .ok y := by
   intro m
@@ -789,11 +786,11 @@ theorem map_cont (p : Path) (c : Cfg) (vt : Ty) (hu : noU16 vt = true) (tail : L
       rw [e] at h
       have h' := (fuel_mono p c f).2.2.1 (f + gh + 2 + (tokensNode v).length + tySize vt + 1) (by omega) vt true _ acc _ h
       rw [show f + gh + 2 + (tokensNode v).length + tySize vt + 1 = (f + gh + 2 + (tokensNode v).length + tySize vt) + 1 from rfl,
-        map_field_step p c true gh k v _ vt acc _ hpl.1.1 hpl.1.2 hfit.1 hu (by omega)] at h'
+        map_field_step p c true gh k v _ vt acc _ hpl.1.1 hpl.1.2 hfit.1 (by omega)] at h'
       obtain ⟨a, ha, _⟩ := mapStepK_ok c k v vt acc _ _ h'
       exact ih rest hrm hpl.2 hfit.2 _ a y ha
 
-theorem struct_cont (p : Path) (c : Cfg) (decl : Fields) (hu : noU16F decl = true) (tail : List Tok) :
+theorem struct_cont (p : Path) (c : Cfg) (decl : Fields) (tail : List Tok) :
     ∀ (m : Nat) (d : BFields), d.len = m → plainF d = true → fitsStructF c d decl = true → ∀ (f : Nat) slots y,
       deStruct p c f decl false true (tokensFields d ++ tail) slots = .ok y →
       ∃ f' sl, deStruct p c f' decl false true tail sl = .ok y := by
@@ -827,12 +824,12 @@ theorem struct_cont (p : Path) (c : Cfg) (decl : Fields) (hu : noU16F decl = tru
         decl false true _ slots _ h
       rw [show f + gh + 2 + (tokensNode v).length + tySize.fieldsSize decl + 1 =
           (f + gh + 2 + (tokensNode v).length + tySize.fieldsSize decl) + 1 from rfl,
-        struct_field_step p c true gh k v _ decl slots _ hpl.1.1 hpl.1.2 hu hfit1 (by omega)] at h'
+        struct_field_step p c true gh k v _ decl slots _ hpl.1.1 hpl.1.2 hfit1 (by omega)] at h'
       obtain ⟨sl, ha, _⟩ := structStepK_ok _ decl slots v _ _ _ h'
       exact ih rest hrm hpl.2 hfit.2 _ sl y ha
 
 /-- the loops on the lexemes of a document cut anywhere and followed by the failure -/
-theorem map_fault (p : Path) (c : Cfg) (vt : Ty) (hu : noU16 vt = true) (d : BFields) (hpl : plainF d = true)
+theorem map_fault (p : Path) (c : Cfg) (vt : Ty) (d : BFields) (hpl : plainF d = true)
     (hfit : fitsMapF c d vt = true) (n : Nat) (m : Tok) (hm : Faulty p m) (junk : List Tok) (f : Nat) (y : List String × List Tok) :
     deMap p c f vt true ((tokensFields d).take n ++ m :: junk) [] ≠ .ok y := by
   intro h
@@ -842,7 +839,7 @@ theorem map_fault (p : Path) (c : Cfg) (vt : Ty) (hu : noU16 vt = true) (d : BFi
       ⟨(tokensFields d).take n, rfl, (List.take_append_drop n _).symm, (unbroken_fields d).take n⟩
     rcases (cut_all (hm.dead junk) ((tokensFields d).drop n) c f).2.2.1 vt true _ _ [] items r hr h with ⟨r2', g, q, _, e2, _⟩ | ⟨e, _⟩
     · have g' := (fuel_mono p c f).2.2.1 (f + (tokensFields d).length + 1 + tySize vt) (by omega) vt true _ [] _ g
-      have hs := sv_map c d p true [] [] vt (f + (tokensFields d).length + 1 + tySize vt) [] (Or.inr ⟨rfl, rfl, rfl⟩) hu hpl hfit (by omega)
+      have hs := sv_map c d p true [] [] vt (f + (tokensFields d).length + 1 + tySize vt) [] (Or.inr ⟨rfl, rfl, rfl⟩) hpl hfit (by omega)
       rw [List.append_nil, g'] at hs
       cases hv : valMapG (binSem c) d vt [] with
       | error e => simp [hv, Except.map] at hs
@@ -852,10 +849,10 @@ theorem map_fault (p : Path) (c : Cfg) (vt : Ty) (hu : noU16 vt = true) (d : BFi
         simp at hl; omega
     · simp at e
   · rw [List.take_of_length_le (by omega)] at h
-    obtain ⟨f', a, h'⟩ := map_cont p c vt hu (m :: junk) d.len d rfl hpl hfit f [] y h
+    obtain ⟨f', a, h'⟩ := map_cont p c vt (m :: junk) d.len d rfl hpl hfit f [] y h
     exact map_fault_head p c vt m hm junk f' a y h'
 
-theorem struct_fault (p : Path) (c : Cfg) (decl : Fields) (hu : noU16F decl = true) (d : BFields) (hpl : plainF d = true)
+theorem struct_fault (p : Path) (c : Cfg) (decl : Fields) (d : BFields) (hpl : plainF d = true)
     (hfit : fitsStructF c d decl = true) (n : Nat) (m : Tok) (hm : Faulty p m) (junk : List Tok) (f : Nat)
     (slots : List (Option String)) (y : String × List Tok) :
     deStruct p c f decl false true ((tokensFields d).take n ++ m :: junk) slots ≠ .ok y := by
@@ -867,7 +864,7 @@ theorem struct_fault (p : Path) (c : Cfg) (decl : Fields) (hu : noU16F decl = tr
     rcases (cut_all (hm.dead junk) ((tokensFields d).drop n) c f).2.2.2 decl false true _ _ slots x r hr h with ⟨r2', g, q, _, e2, _⟩ | ⟨e, _⟩
     · have g' := (fuel_mono p c f).2.2.2 (f + (tokensFields d).length + 1 + tySize.fieldsSize decl) (by omega) decl false true _ slots _ g
       have hs := sv_struct c d p true [] [] decl (f + (tokensFields d).length + 1 + tySize.fieldsSize decl) slots
-        (Or.inr ⟨rfl, rfl, rfl⟩) hu hpl hfit (by omega)
+        (Or.inr ⟨rfl, rfl, rfl⟩) hpl hfit (by omega)
       rw [List.append_nil, g'] at hs
       cases hv : valStructG (binSem c) d decl false slots with
       | error e => simp [hv, Except.map] at hs
@@ -877,15 +874,15 @@ theorem struct_fault (p : Path) (c : Cfg) (decl : Fields) (hu : noU16F decl = tr
         simp at hl; omega
     · simp at e
   · rw [List.take_of_length_le (by omega)] at h
-    obtain ⟨f', sl, h'⟩ := struct_cont p c decl hu (m :: junk) d.len d rfl hpl hfit f slots y h
+    obtain ⟨f', sl, h'⟩ := struct_cont p c decl (m :: junk) d.len d rfl hpl hfit f slots y h
     exact struct_fault_head p c decl false m hm junk f' sl y h'
 
 /-- (C20, binary deserializers, NESTED documents, both sequential paths) the lexemes of a document
-(`plainF`, root request a map or struct that fits, no `u16` target) cut after ANY `n` lexemes
+(`plainF`, root request a map or struct that fits) cut after ANY `n` lexemes
 (`n` past the end: the whole document) and followed by a failure of the lexeme source (and then by
 anything).  The deserializer never answers `ok`: a failure of the source is never swallowed. -/
 theorem C20_bin_de_fault (p : Path) (c : Cfg) (ty : RootTy) (d : BDoc) (hpl : plainF d = true)
-    (hfit : fitsRoot c ty d = true) (hu : noU16Root ty = true) (n : Nat) (m : Tok) (hm : Faulty p m) (junk : List Tok)
+    (hfit : fitsRoot c ty d = true) (n : Nat) (m : Tok) (hm : Faulty p m) (junk : List Tok)
     (v : String) : deSeqRoot p c ty ((tokensOf d).take n ++ m :: junk) ≠ .ok v := by
   intro h
   unfold deSeqRoot tokensOf at h
@@ -895,20 +892,18 @@ theorem C20_bin_de_fault (p : Path) (c : Cfg) (ty : RootTy) (d : BDoc) (hpl : pl
     cases t with
     | map vt =>
       simp only [fitsRoot] at hfit
-      simp only [noU16Root, noU16] at hu
       dsimp only at h
       generalize 2 * ((tokensFields d).take n ++ m :: junk).length + rootSize (.plain (.map vt)) + 8 = F at h
       cases hx : deMap p c F vt true ((tokensFields d).take n ++ m :: junk) [] with
       | error e => simp [hx] at h
-      | ok y => exact map_fault p c vt hu d hpl hfit n m hm junk F y hx
+      | ok y => exact map_fault p c vt d hpl hfit n m hm junk F y hx
     | struct decl =>
       simp only [fitsRoot] at hfit
-      simp only [noU16Root, noU16] at hu
       dsimp only at h
       generalize 2 * ((tokensFields d).take n ++ m :: junk).length + rootSize (.plain (.struct decl)) + 8 = F at h
       cases hx : deStruct p c F decl false true ((tokensFields d).take n ++ m :: junk) (slotsInit decl) with
       | error e => simp [hx, Except.map] at h
-      | ok y => exact struct_fault p c decl hu d hpl hfit n m hm junk F _ y hx
+      | ok y => exact struct_fault p c decl d hpl hfit n m hm junk F _ y hx
     | _ => simp at h
 
 /-! ### the hypotheses are satisfiable, and the statements are not vacuous -/
@@ -920,7 +915,7 @@ def exCutDoc : BDoc :=
     (.cons 1 (.quoted [99]) (.obj (.cons 0 (.quoted [98]) (.leaf (.u32 2)) .nil)) .nil)
 def exCutTy : RootTy := .plain (.map (.map .u32))
 
-example : plainF exCutDoc = true ∧ fitsRoot exCutCfg exCutTy exCutDoc = true ∧ noU16Root exCutTy = true := by decide
+example : plainF exCutDoc = true ∧ fitsRoot exCutCfg exCutTy exCutDoc = true := by decide
 
 /-- the 16 lexemes cut after 7 (first field complete) or 9 (and the ghost object too) are accepted with
 the value of the first field; every other proper cut is an error on both paths. -/
